@@ -130,3 +130,22 @@ def craft_b2(entries, primary=None):
     b = bytes([0x85, 0x48, 0xf0, 0x9f, 0x8c, 0x90, 0xf0, 0x9f, 0x93, 0xa6, 0x44]) + b'b2\0\0' + _bstr(sl) + _head(4, len(secs)) + b''.join(b for n, b in secs)
     return b + b'\x48' + (len(b) + 9).to_bytes(8, 'big')
 
+
+
+def craft_b1(entries, primary=b'https://example.com/'):
+    """b1 bundle built by hand. entries: [(url, variants-value bytes, [response bytes ...], nlocs or None)]: the index value array is
+    [variants-value, (offset, length) x nlocs]; nlocs=None -> one location per response; a smaller number leaves responses unlisted"""
+    nresp = sum(len(rs) for _, _, rs, _ in entries)
+    blob, idxents = b'', []
+    for u, vv, rs, nlocs in entries:
+        locs = []
+        for r in rs:
+            locs.append((len(_head(4, nresp)) + len(blob), len(r))); blob += r
+        if nlocs is not None: locs = locs[:nlocs]
+        idxents.append(_tstr(u) + _head(4, 1 + 2 * len(locs)) + _bstr(vv) + b''.join(_head(0, o) + _head(0, l) for o, l in locs))
+    responses = _head(4, nresp) + blob
+    idx = _head(5, len(entries)) + b''.join(idxents)
+    secs = [(b'index', idx), (b'responses', responses)]
+    sl = _head(4, 2 * len(secs)) + b''.join(_tstr(n) + _head(0, len(b)) for n, b in secs)
+    b = bytes([0x86, 0x48, 0xf0, 0x9f, 0x8c, 0x90, 0xf0, 0x9f, 0x93, 0xa6, 0x44]) + b'b1\0\0' + _tstr(primary) + _bstr(sl) + _head(4, len(secs)) + b''.join(b for n, b in secs)
+    return b + b'\x48' + (len(b) + 9).to_bytes(8, 'big')
